@@ -27,6 +27,11 @@ class PathLimit(BaseException):
     pass
 
 
+class PathTimeout(BaseException):
+    """Injected by the unit watchdog into a path that runs longer than the per-path limit
+    (non-terminating library code never comes back to the engine on its own)."""
+
+
 class Decision:
     __slots__ = ("outcome", "forced", "flipped", "value")
 
@@ -102,6 +107,8 @@ class Engine:
         self.sints = {}
         self.cross_every = cross_every
         self.cross_faults = []
+        self.path_started = None
+        self.timeouts = []
 
     # ------------------------------------------------------------------ fresh names
     def fresh(self, prefix="t"):
@@ -331,19 +338,32 @@ class Engine:
                 self.sints = {}
                 self.solver.push()
                 status, result = "ok", None
+                self.path_started = time.time()
                 try:
                     try:
                         result = fn()
                     except PathAbort:
                         status = "abort"
                         self.stats.aborted += 1
+                    except PathTimeout:
+                        # the code under test did not come back: keep the inputs of this path
+                        self.path_started = None
+                        status = "timeout"
+                        try:
+                            self.timeouts.append(self.eval_inputs(self.get_model()))
+                        except BaseException:  # noqa: BLE001
+                            self.timeouts.append(None)
                     self.stats.paths += 1
-                    if self.pos != len(self.trail):
-                        raise Inconclusive("non-deterministic replay: trail not consumed")
-                    if on_path is not None:
-                        on_path(status, result, self)
+                    if status != "timeout":
+                        if self.pos != len(self.trail):
+                            raise Inconclusive("non-deterministic replay: trail not consumed")
+                        if on_path is not None:
+                            on_path(status, result, self)
                 finally:
+                    self.path_started = None
                     self.solver.pop()
+                if status == "timeout":
+                    del self.trail[self.pos :]
                 if self.max_paths and self.stats.paths >= self.max_paths:
                     raise PathLimit(f"more than {self.max_paths} paths")
                 while self.trail and (self.trail[-1].forced or self.trail[-1].flipped):
